@@ -38,6 +38,8 @@ type Recorder struct {
 	Ptrs []PtrObs
 	// Root: the destination of the execution in progress
 	Root reflect.Value
+	// Sentinel: the one issue value shared by every "failissue shared" callback of the schema
+	Sentinel *z.ZogIssue
 	mu   sync.Mutex
 }
 
@@ -872,7 +874,17 @@ func ApplyIntTest(s *z.NumberSchema[int], t TestSpec) {
 
 // ---------- Preprocess ----------
 
-func preErr(n *Node) error {
+func preErr(n *Node, rec *Recorder) error {
+	if n.PreKind == "failissue" && n.PreIss.Code == "shared" {
+		// ONE sentinel issue value for every node of the schema that fails this way (`var ErrDenied = &z.ZogIssue{...}`
+		// returned from several callbacks): the library reports it as it is
+		rec.mu.Lock()
+		defer rec.mu.Unlock()
+		if rec.Sentinel == nil {
+			rec.Sentinel = &z.ZogIssue{Code: "shared"}
+		}
+		return rec.Sentinel
+	}
 	if n.PreKind == "failissue" {
 		return &z.ZogIssue{Code: n.PreIss.Code, Path: n.PreIss.Path, Dtype: n.PreIss.DType, Message: n.PreIss.Msg}
 	}
@@ -907,7 +919,7 @@ func buildPre(n *Node, rec *Recorder) z.ZogSchema {
 	case "idany":
 		return z.Preprocess(func(data any, ctx z.Ctx) (any, error) { note(data, ctx); return data, nil }, inner)
 	case "fail", "failissue", "failwrap":
-		return z.Preprocess(func(data any, ctx z.Ctx) (any, error) { note(data, ctx); return data, preErr(n) }, inner)
+		return z.Preprocess(func(data any, ctx z.Ctx) (any, error) { note(data, ctx); return data, preErr(n, rec) }, inner)
 	case "atoi":
 		return z.Preprocess(func(data string, ctx z.Ctx) (int, error) {
 			note(data, ctx)
